@@ -15,6 +15,8 @@ def mutants_for(pid):
         m = json.load(open(meta))
         if m.get("property") != pid and pid not in m.get("also_checked_by", []):
             continue
+        if m.get("retired"):
+            continue   # made for an earlier tree; superseded by a repair (see meta)
         patch = os.path.join(os.path.dirname(meta), m.get("patch", os.path.basename(meta)[:-5] + ".diff"))
         if not os.path.exists(patch):
             continue
